@@ -50,6 +50,7 @@ let err_str = function
   | M.EMustFollow -> "MustFollow -" | M.EBracketNone -> "BracketNone -"
   | M.EBracketMismatch -> "BracketMismatch -" | M.EEndExpected -> "EndExpected -"
   | M.EEndUnfinished -> "EndUnfinished -" | M.EInvalidUtf8 -> "InvalidUtf8 -"
+  | M.EMissingParam -> "MissingParam -"
 
 let rec node_str (n : M.node) : string =
   let M.Node (d, args, extra, children, comments) = n in
